@@ -14,3 +14,4 @@ Check (C03_check_pol_spec : forall p T v, first_order T = true -> wf_ty T = true
   (member T v = true ->
      exists v', check_pol p T v = Ok v' /\ dv_equiv v' v /\ check_pol p T v' = Ok v') /\
   (member T v = false -> check_pol p T v = Err (Blame p))).
+Check (C03_member_order_independent : forall T v1 v2, dv_equiv v1 v2 -> member T v1 = member T v2).
